@@ -244,6 +244,22 @@ def rule_d(ctx: Ctx) -> None:
             found['unexpected'] = n
         if any("not attr.type.is_derived(base_attr.type, 'restriction')" in t and "self.derivation == 'restriction'" in t for t in T):
             found['type'] = n
+            # the test has no exemption besides a prohibited redeclaration (which is not an attribute use at all)
+            for x in g.nodes:
+                if x.kind == 'if' and text(x.ast.test) in T and "attr.type.is_derived(base_attr.type, 'restriction')" in text(x.ast.test):
+                    from .common import bool_atoms, bool_eval
+                    atoms = bool_atoms(x.ast.test)
+                    env0 = {"self.derivation == 'restriction'": True, "attr.type.is_derived(base_attr.type, 'restriction')": False,
+                            "attr.use != 'prohibited'": True, "attr.use == 'prohibited'": False}
+                    free = [a for a in atoms if a not in env0]
+                    exempt = []
+                    for bits in itertools.product((False, True), repeat=len(free)):
+                        env = dict(env0)
+                        env.update(zip(free, bits))
+                        if not bool_eval(x.ast.test, env):
+                            exempt = [f'{a} is {b}' for a, b in zip(free, bits)]
+                            break
+                    found['type-exempt'] = (x, exempt)
         for t in T:
             if 'base_attr.use' in t and 'attr.use' in t:
                 found['use'] = (n, t)
@@ -257,6 +273,11 @@ def rule_d(ctx: Ctx) -> None:
                     ('wildcard', 'an attribute wildcard that is not a restriction of the base wildcard is refused')):
         ctx.ob(rule, f'restriction of attributes: {what}', f.loc(found[k].ast) if k in found else f.loc(), k in found,
                '' if k in found else 'no parse_error with this path condition', key=f'attributes._parse|{k}')
+    if 'type-exempt' in found:
+        x, exempt = found['type-exempt']
+        ctx.ob(rule, 'restriction of attributes: the type test exempts nothing but a prohibited redeclaration', f.loc(x.ast), not exempt,
+               '' if not exempt else f'no error when {"; ".join(exempt)}: e.g. an xs:int attribute redeclared without a type (xs:anySimpleType) in a restriction is accepted and '
+               'the derived type admits x="abc", which the base rejects', key='attributes._parse|type-exempt')
     ok = 'use' in found
     det = ''
     if ok:
@@ -527,4 +548,277 @@ def rule_j(ctx: Ctx) -> None:
     derived_ok(ctx, 'C14.j')
 
 
-RULES = [rule_a, rule_b, rule_c, rule_d, rule_e, rule_f, rule_g, rule_h, rule_i, rule_j]
+def rule_k(ctx: Ctx) -> None:
+    """Element particle against a base choice: the branches are alternatives, so the occurrence range compared with the derived
+    particle describes ONE branch (times the occurrences of the choice).  An accumulator created before the loop over the branches
+    must be cleared on every way back to the loop head."""
+    rule = 'C14.k'
+    from .common import reach_cut
+    n_inst = 0
+    for f in ctx.idx.iter_functions('validators'):
+        if isinstance(f.node, ast.Lambda) or f.name != 'is_restriction':
+            continue
+        accs = {}
+        for s in walk_no_nested(f.node):
+            if isinstance(s, ast.Assign) and len(s.targets) == 1 and isinstance(s.targets[0], ast.Name) and text(s.value) == 'OccursCalculator()':
+                accs[s.targets[0].id] = s
+        if not accs:
+            continue
+        ctx.analysed(f.qualname)
+        g = cfg_of(ctx, f)
+        for v, d in accs.items():
+            loops = [x for x in g.nodes if x.kind == 'for' and any(isinstance(y, ast.AugAssign) and text(y.target) == v for y in ast.walk(x.ast))]
+            for lp in loops:
+                gs = guards(ctx, f, lp)
+                if not any(t.replace('"', "'").endswith(".model == 'choice'") and lab == 'T' for t, lab in gs):
+                    continue    # in a sequence / all group the occurrences of the items do add up
+                n_inst += 1
+                grp = [t for t, lab in gs if t.replace('"', "'").endswith(".model == 'choice'")][0].split('.model')[0]
+                body = reach_cut(g, [m for m, lab in g.succ[lp] if lab == 'T'], set(), avoid=[lp], kinds='nTF')
+                adds = [x for x in body if x.kind == 'stmt' and isinstance(x.ast, ast.AugAssign) and text(x.ast.target) == v and isinstance(x.ast.op, ast.Add)]
+                muls = [x for x in body if x.kind == 'stmt' and isinstance(x.ast, ast.AugAssign) and text(x.ast.target) == v and isinstance(x.ast.op, ast.Mult)
+                        and text(x.ast.value) == grp]
+                resets = [x for x in body if x.kind == 'stmt' and ((isinstance(x.ast, ast.Expr) and text(x.ast.value) == f'{v}.reset()')
+                                                                    or (isinstance(x.ast, ast.Assign) and text(x.ast.targets[0]) == v
+                                                                        and text(x.ast.value) == 'OccursCalculator()'))]
+                tests = [x for x in body if x.kind == 'if' and any(text(c.func).endswith('has_occurs_restriction') and c.args and text(c.args[0]) == v
+                                                                   for c in calls(x.ast.test))]
+                loc = f.loc(lp.ast)
+                # (1) from an augmentation the next augmentation (of the next branch) is reached only through a reset / a fresh accumulator
+                starts = [m for a in muls or adds for m, lab in g.succ[a] if lab in 'nTF']
+                seen = reach_cut(g, starts, set(), avoid=resets, kinds='nTF')
+                back = any(a in seen for a in adds)
+                ctx.ob(rule, f'{f.qualname.split(".", 2)[-1]}: the occurrence accumulator `{v}` is cleared before the next branch of the choice is tried', loc,
+                       bool(adds) and not back,
+                       '' if adds and not back else f'`{v}` keeps the occurrences of a branch that was tried and rejected: the range compared with the derived particle is the '
+                       'sum over every matching branch, so e.g. a{2,2} is accepted as a restriction of choice(a | any) and the derived type admits what the base rejects',
+                       key=f'{f.qualname}|choice-acc|{v}|reset')
+                # (2) the comparison sees branch occurrences times the occurrences of the choice
+                for t in tests:
+                    st = [m for m, lab in g.succ[lp] if lab == 'T']
+                    no_add = t in reach_cut(g, st, set(), avoid=adds + [lp], kinds='nTF')
+                    no_mul = t in reach_cut(g, st, set(), avoid=muls + [lp], kinds='nTF')
+                    order = bool(adds) and bool(muls) and all(m_ in reach_cut(g, [a], set(), avoid=[lp], kinds='nTF') for a in adds for m_ in muls)
+                    ok = not no_add and not no_mul and order
+                    ctx.ob(rule, f'{f.qualname.split(".", 2)[-1]}: the range tested is (occurrences of the branch) x (occurrences of the choice)', f.loc(t.ast), ok,
+                           '' if ok else ('the test is reachable without `+= <branch>`' if no_add else f'the test is reachable without `*= {grp}`' if no_mul
+                                          else 'the multiplication precedes the addition'),
+                           key=f'{f.qualname}|choice-acc|{v}|range')
+                    # the true edge of the test accepts, nothing else in the loop does
+                    acc = [r for r in body if r.kind == 'return' and text(r.ast.value) == 'True']
+                    ok = bool(acc) and all(any((text(t.ast.test), 'T') == gd for gd in guards(ctx, f, r)) for r in acc)
+                    ctx.ob(rule, f'{f.qualname.split(".", 2)[-1]}: a branch is accepted only when the occurrence test holds', f.loc(t.ast), ok, '',
+                           key=f'{f.qualname}|choice-acc|{v}|accept')
+                ctx.floor(rule, f'has_occurs_restriction({v}) tests in the choice loop', len(tests), 1)
+    ctx.floor(rule, 'occurrence accumulators over the branches of a choice', n_inst, 1)
+    ctx.explain('C14.k: typestate of the OccursCalculator local in is_restriction(): under the guard `….model == \'choice\'` every path from an augmentation '
+                'back to the loop head passes reset() (or a fresh OccursCalculator()); the tested range is built as += branch, *= choice.')
+
+
+def rule_l(ctx: Ctx) -> None:
+    """Every sibling implementation of is_restriction(other): a verdict of acceptance depends on the base.  A `return True` that is
+    not control dependent on any test of `other` accepts the derived particle over every base; for the empty derived group the base
+    must be emptiable (Particle Valid (Restriction): an empty particle restricts only an emptiable one)."""
+    rule = 'C14.l'
+    n = 0
+    for f in ctx.idx.iter_functions('validators'):
+        if isinstance(f.node, ast.Lambda) or f.name != 'is_restriction' or f.cls is None or 'other' not in f.params:
+            continue
+        if f.cls.name in ('ParticleMixin',):
+            continue
+        g = cfg_of(ctx, f)
+        ctx.analysed(f.qualname)
+        for r in g.nodes:
+            if r.kind != 'return' or r.ast.value is None:
+                continue
+            v = r.ast.value
+            if isinstance(v, ast.Constant) and v.value is False:
+                continue      # refusing is always on the safe side of this property
+            n += 1
+            mentions = any(isinstance(x, ast.Name) and x.id == 'other' for x in ast.walk(v))
+            gs = guards(ctx, f, r)
+            dep = [t for t, lab in gs if 'other' in _names_in(t)]
+            ok = mentions or bool(dep)
+            ctx.ob(rule, f'{f.qualname.split(".", 2)[-1]}: `return {text(v)[:50]}` (line {r.lineno}) depends on the base particle', f.loc(r.ast), ok,
+                   '' if ok else f'accepted for every base: the only conditions are {sorted(t for t, _ in gs)} - e.g. an empty <xs:sequence/> is accepted as a restriction of a '
+                   'base content with a required element, and <d/> is valid for the derived type while it is invalid for the base',
+                   key=f'{f.qualname}|accept|{text(v)[:40]}|{sorted(t for t, _ in gs)[:2]}')
+        if f.cls.name in ('XsdGroup', 'Xsd11Group'):
+            # the emptiness branch asks the base whether it is emptiable
+            empt = [x for x in g.nodes if x.kind == 'if' and text(x.ast.test) in ('not self._group', 'not self', 'len(self) == 0', 'len(self._group) == 0', 'self.is_empty()')]
+            ok = bool(empt)
+            for x in empt:
+                succ = [m for m, lab in g.succ[x] if lab == 'T']
+                ok = ok and all(m.kind == 'return' and m.ast.value is not None and 'other' in _names_in(text(m.ast.value))
+                                and any(k in text(m.ast.value) for k in ('is_emptiable', 'effective_min_occurs')) for m in succ)
+            ctx.ob(rule, f'{f.qualname.split(".", 2)[-1]}: an empty derived group is a restriction exactly of an emptiable base', f.loc(empt[0].ast) if empt else f.loc(), ok,
+                   '' if ok else 'the empty-group branch does not return other.is_emptiable()', key=f'{f.qualname}|empty-group')
+    ctx.floor(rule, 'accepting returns of the is_restriction siblings', n, 12)
+    ctx.explain('C14.l: sibling cross-check over every is_restriction(other) implementation - each return that can accept either computes its value from `other` '
+                'or is control dependent on a test of `other`; the empty derived group returns other.is_emptiable().')
+
+
+def _names_in(t: str) -> set:
+    try:
+        return {x.id for x in ast.walk(ast.parse(t, mode='eval')) if isinstance(x, ast.Name)}
+    except SyntaxError:
+        return set()
+
+
+def _forced_true(test: ast.AST, fixed: dict) -> 'list | None':
+    """``fixed`` maps a substring to the value of the atom containing it.  None when the test is true for every value of the other
+    atoms; otherwise the falsifying assignment of the free atoms.  [] when a fixed atom does not occur."""
+    from .common import bool_atoms, bool_eval
+    atoms = bool_atoms(test)
+    env0 = {}
+    for sub, val in fixed.items():
+        hit = [a for a in atoms if sub in a]
+        if not hit:
+            return []
+        for a in hit:
+            env0[a] = val
+    free = [a for a in atoms if a not in env0]
+    if len(free) > 8:
+        return free
+    for bits in itertools.product((False, True), repeat=len(free)):
+        env = dict(env0)
+        env.update(zip(free, bits))
+        if not bool_eval(test, env):
+            return [f'`{a}` is {b}' for a, b in zip(free, bits)] or ['(no free atom)']
+    return None
+
+
+ELEMENT_REFUSALS = (
+    ('type', {'is_derived(other.type': False, 'is_consistent(other)': False, 'self.type.elem is not other.type.elem': True},
+     'the type of the derived element is not derived by restriction from the type of the base element',
+     'e.g. a base element of an abstract complex type redeclared as xs:string is accepted and the derived type admits <e>abc</e>'),
+    ('fixed-dropped', {'other.fixed is not None': True, 'self.fixed is None': True},
+     'the base element has a fixed value and the derived element has none', 'the derived type admits any value where the base admits one'),
+    ('nillable', {'other.nillable is False': True, 'self.nillable': True},
+     'the derived element is nillable and the base element is not', 'the derived type admits xsi:nil="true" where the base rejects it'),
+)
+
+
+ELEMENT_EARLY_EXITS = {
+    'self.max_occurs == 0 and check_occurs': 'an element particle that cannot occur restricts anything whose occurrences admit zero (occurs test passed just before)',
+    'self.name != other.name': 'name mismatch: the branch returns False unless the base is the head of a substitution group containing the derived element',
+}
+
+
+def rule_m(ctx: Ctx) -> None:
+    """Element against element (NameAndTypeOK): the refusals of XsdElement.is_restriction have no exemptions."""
+    rule = 'C14.m'
+    f = ctx.idx.method('xmlschema.validators.elements.XsdElement', 'is_restriction')
+    ctx.analysed(f.qualname)
+    g = cfg_of(ctx, f)
+    chain = []
+    for x in g.nodes:
+        if x.kind != 'if':
+            continue
+        gs = guards(ctx, f, x)
+        if ('isinstance(other, XsdElement)', 'T') not in gs:
+            continue
+        succ = [m for m, lab in g.succ[x] if lab == 'T']
+        if succ and all(m.kind == 'return' and isinstance(m.ast.value, ast.Constant) and m.ast.value.value is False for m in succ):
+            chain.append(x)
+    ctx.floor(rule, 'refusing tests of the element-against-element branch', len(chain), 5)
+    for k, fixed, what, eg in ELEMENT_REFUSALS:
+        best = None
+        for x in chain:
+            r = _forced_true(x.ast.test, fixed)
+            if r is None:
+                best = (x, None)
+                break
+            if r and best is None:
+                best = (x, r)
+        ok = best is not None and best[1] is None
+        det = ''
+        if not ok:
+            det = ('no test refuses this case' if best is None else f'`{text(best[0].ast.test)[:110]}` does not refuse when {"; ".join(best[1])}') + f': {eg}'
+        else:
+            # the refusing test is reached whenever the earlier tests of the branch are false: each of those either refuses too or is a reviewed accept
+            up = {}
+            for i in ast.walk(f.node):
+                if isinstance(i, ast.If) and len(i.orelse) == 1 and isinstance(i.orelse[0], ast.If):
+                    up[id(i.orelse[0])] = i
+            earlier, cur = [], best[0].ast
+            while id(cur) in up:
+                cur = up[id(cur)]
+                earlier.append(cur)
+            for y in g.nodes:
+                if y.kind == 'if' and any(y.ast is e_ for e_ in earlier):
+                    t = text(y.ast.test)
+                    if True:
+                        succ = [m for m, l2 in g.succ[y] if l2 == 'T']
+                        refuses = succ and all(m.kind == 'return' and isinstance(m.ast.value, ast.Constant) and m.ast.value.value is False for m in succ)
+                        if not refuses and t not in ELEMENT_EARLY_EXITS:
+                            ok = False
+                            det = f'the refusal is bypassed when `{t[:90]}` (line {y.lineno}) holds: that branch neither refuses nor is a reviewed accept'
+        ctx.ob(rule, f'XsdElement.is_restriction refuses when {what}', f.loc(best[0].ast) if best else f.loc(), ok, det, key=f'{f.qualname}|refuse|{k}')
+    blk = [x for x in chain if 'other.block' in text(x.ast.test) and 'self.block' in text(x.ast.test)]
+    ctx.ob(rule, 'XsdElement.is_restriction refuses when the derived element blocks less than the base element', f.loc(blk[0].ast) if blk else f.loc(), bool(blk), '',
+           key=f'{f.qualname}|refuse|block')
+    idn = [x for x in chain if 'other.identities' in text(x.ast.test) and 'self.identities' in text(x.ast.test)]
+    ctx.ob(rule, 'XsdElement.is_restriction refuses identity constraints that the base element does not have', f.loc(idn[0].ast) if idn else f.loc(), bool(idn), '',
+           key=f'{f.qualname}|refuse|identities')
+    ctx.explain('C14.m: the refusing tests of the element-against-element branch (guard isinstance(other, XsdElement), true edge returns False) are evaluated as truth '
+                'tables: with the defining atoms of a refusal fixed, the test must hold for every value of its other atoms - an extra conjunct is an exemption.')
+
+
+def rule_n(ctx: Ctx) -> None:
+    """`is_derived(base, 'restriction')` in the restriction checks means "derived using restriction steps only".  An implementation
+    that discharges the filter at the first matching step (`derivation = None`) and then recurses into its base type answers
+    "some step is a restriction": a restriction of an extension of the base passes."""
+    rule = 'C14.n'
+    # (a) call sites that rely on the every-step reading
+    users = []
+    for f in ctx.idx.iter_functions('validators'):
+        if isinstance(f.node, ast.Lambda) or f.name not in ('is_restriction', '_parse', '_parse_simple_content_restriction', '_parse_complex_content_restriction',
+                                                              'is_element_restriction'):
+            continue
+        for c in calls(f.node):
+            if isinstance(c.func, ast.Attribute) and c.func.attr == 'is_derived' and len(c.args) == 2 and isinstance(c.args[1], ast.Constant) \
+                    and c.args[1].value == 'restriction':
+                users.append((f, c))
+    ctx.floor(rule, "is_derived(…, 'restriction') call sites in the restriction checks", len(users), 3)
+    # (b) sibling implementations of is_derived
+    n = 0
+    for cq in ('xmlschema.validators.complex_types.XsdComplexType', 'xmlschema.validators.simple_types.XsdSimpleType', 'xmlschema.validators.simple_types.XsdList',
+               'xmlschema.validators.simple_types.XsdUnion'):
+        c = ctx.idx.cls(cq)
+        f = c.methods.get('is_derived')
+        if f is None:
+            continue
+        n += 1
+        ctx.analysed(f.qualname)
+        g = cfg_of(ctx, f)
+        rd = g.reaching_defs(kinds='nTF')
+        clears = [x for x in g.nodes if x.kind == 'stmt' and isinstance(x.ast, ast.Assign) and text(x.ast.targets[0]) == 'derivation'
+                  and isinstance(x.ast.value, ast.Constant) and x.ast.value.value is None]
+        bad = []
+        for x, cl in call_nodes(g, lambda cl: isinstance(cl.func, ast.Attribute) and cl.func.attr == 'is_derived' and 'base_type' in text(cl.func.value)):
+            if len(cl.args) == 2 and text(cl.args[1]) == 'derivation' and any(d in rd[x].get('derivation', set()) for d in clears):
+                # the other derivation kind of this type stops the walk before the recursion?  (simple types: `elif self.derivation: return False`)
+                bad.append((x, cl))
+        if c.name != 'XsdComplexType':
+            # simple types derive by restriction, list or union only, and the list / union siblings end the walk; what has to hold here is
+            # that a step of another kind refuses while the filter is still set
+            refusal = [r for r in g.nodes if r.kind == 'return' and isinstance(r.ast.value, ast.Constant) and r.ast.value.value is False
+                       and {('derivation', 'T'), ('self.derivation', 'T')} <= guards(ctx, f, r)] if c.name == 'XsdSimpleType' else \
+                      [r for r in g.nodes if r.kind == 'return' and isinstance(r.ast.value, ast.Constant) and r.ast.value.value is False
+                       and any('derivation != self.derivation' in t and lab == 'T' for t, lab in guards(ctx, f, r))]
+            okk = bool(refusal) or not clears
+            ctx.ob(rule, f'{c.name}.is_derived: a step of another derivation kind refuses while the filter is set', f.loc(refusal[0].ast) if refusal else f.loc(), okk, '',
+                   key=f'{f.qualname}|other-kind-refuses')
+            continue
+        ok = not bad
+        ctx.ob(rule, f'{c.name}.is_derived(other, \'restriction\') holds only when every step up to `other` is a restriction', f.loc(bad[0][1]) if bad else f.loc(), ok,
+               '' if ok else f'`derivation = None` (line {clears[0].lineno}) reaches `{text(bad[0][1])[:60]}`: once one step matches, the rest of the chain is unconstrained - '
+               'T2 = restriction of T1 = extension of T0 passes is_derived(T0, \'restriction\'), so a restriction may redeclare an element of type T0 with type T2 '
+               f'({len(users)} call sites in the restriction checks rely on the every-step reading) and admit content the base rejects',
+               key=f'{f.qualname}|filter-discharged')
+    ctx.floor(rule, 'is_derived implementations', n, 3)
+    ctx.explain('C14.n: reaching definitions in the is_derived siblings - a `derivation = None` definition must not reach a recursive is_derived(…, derivation) on the base type.')
+
+
+RULES = [rule_a, rule_b, rule_c, rule_d, rule_e, rule_f, rule_g, rule_h, rule_i, rule_j, rule_k, rule_l, rule_m, rule_n]
